@@ -110,14 +110,16 @@ const c18PageShort = "@use(\"~main\")@insert(\"a\", \"P\")@component(\"~card\", 
 // loading return a nil Template and an error naming the file; it never panics or hangs.
 func HarnessC18Faulty() {
 	vfsReset()
+	pn := vChoice("page-name", 2)
 	files := []struct{ path, content string }{
 		{"templates/layouts/main.tw", c18LayoutWithComp},
 		{"templates/components/card.tw", c18Comp},
-		{"templates/page.tw", []string{c18Page, c18PageShort}[vChoice("insert-form", 2)]},
+		// the page's name sorts after or before the names of the files it uses
+		{[]string{"templates/page.tw", "templates/about.tw"}[pn], []string{c18Page, c18PageShort}[vChoice("insert-form", 2)]},
 		{"templates/components/lc.tw", c18Comp}, // used by the layout only
 	}
 	which := vChoice("file", 4)
-	kind := vChoice("fault", 5)
+	kind := vChoice("fault", 6)
 	for i, f := range files {
 		if i != which {
 			vfsWriteFile(f.path, f.content)
@@ -132,6 +134,8 @@ func HarnessC18Faulty() {
 			vfsWriteFile(f.path, f.content[:cut]+string([]byte{g}))
 		case 2: // replaced by garbage
 			vfsWriteFile(f.path, symBytes("g", 3))
+		case 5: // replaced by text that is syntactically wrong whatever surrounds it
+			vfsWriteFile(f.path, "<c>\n{{ 1 + }}</c>")
 		case 3:
 			vfsDangling(f.path)
 		case 4:
@@ -141,7 +145,7 @@ func HarnessC18Faulty() {
 	tpl, err := newTemplate("templates", ".tw")
 	vCover("returned")
 	cwd := vfsCwd()
-	names := []string{"layouts/main", "components/card", "page", "components/lc"}
+	names := []string{"layouts/main", "components/card", []string{"page", "about"}[pn], "components/lc"}
 	mustFail := kind == 0 || kind == 3 || kind == 4
 	if which == 2 && kind == 0 {
 		mustFail = false // a deleted page is simply not there
@@ -149,8 +153,12 @@ func HarnessC18Faulty() {
 	if which == 2 && kind == 4 {
 		mustFail = false // a directory named page.tw holds no template files
 	}
-	if mustFail {
+	if mustFail || kind == 5 {
 		vAssert(err != nil && tpl == nil, "faulty-file-makes-loading-fail")
+	}
+	if kind == 5 && err != nil {
+		// the syntax error is the only fault there is: the error names the file that holds it
+		vAssert(hasSub(err.Error(), cwd+"/"+files[which].path), "error-identifies-the-syntactically-wrong-file")
 	}
 	if err != nil {
 		vCover("load-error")
@@ -161,7 +169,7 @@ func HarnessC18Faulty() {
 			vAssert(hasSub(msg, cwd+"/"+files[which].path) || hasSub(msg, names[which]), "error-identifies-the-missing-or-unreadable-file")
 		} else if which != 2 {
 			// a damaged layout / component may still parse (as plain text); the fault is then the page's undefined insert or slot
-			vAssert(hasSub(msg, cwd+"/"+files[which].path) || hasSub(msg, names[which]) || hasSub(msg, cwd+"/templates/page.tw"),
+			vAssert(hasSub(msg, cwd+"/"+files[which].path) || hasSub(msg, names[which]) || hasSub(msg, cwd+"/"+files[2].path),
 				"error-identifies-the-faulty-file-or-the-page-that-needs-it")
 		} else if mustFail {
 			// a damaged page may name any layout/component; then the error names that (absent) file instead
